@@ -15,3 +15,26 @@ pub fn handle(line: &str) -> String {
         Err(e) => format!("err {}", hex(&format!("{e:#}"))),
     }
 }
+
+/// Engine `witvalid` (C09/C31): is the package a valid component-model WIT package, i.e. does its binary
+/// encoding pass wasmparser's validator (all features on)?  This is the "valid world" domain of C09/C31:
+/// wit-parser alone accepts names that differ only in letter case inside one scope, the component
+/// model does not.
+/// Request: `<hex wit text>`   Answer: `valid` | `invalid <hex message>`
+pub fn handle_valid(line: &str) -> String {
+    let Some(wit) = unhex(line.trim()) else { return "bad-request".into() };
+    let mut resolve = Resolve::default();
+    let r = resolve
+        .push_str("pkg.wit", &wit)
+        .and_then(|pkg| wit_component::encode(&resolve, pkg))
+        .and_then(|bytes| {
+            wasmparser::Validator::new_with_features(wasmparser::WasmFeatures::all())
+                .validate_all(&bytes)
+                .map(|_| ())
+                .map_err(|e| anyhow::anyhow!("{e}"))
+        });
+    match r {
+        Ok(()) => "valid".into(),
+        Err(e) => format!("invalid {}", hex(&format!("{e:#}"))),
+    }
+}
